@@ -318,6 +318,7 @@ def compile_props(pid: str) -> dict:
 
 
 CASE_CHUNK = 300
+MAX_CASE_BYTES = 1_500_000
 
 
 def _coqc_file(path: Path) -> tuple[Path, int, str]:
@@ -333,9 +334,18 @@ def run_coq_bools(pid: str, imports: list[str], exprs: list[str], prelude: str =
         shutil.rmtree(d)
     d.mkdir(parents=True)
     files = []
-    for ci in range(0, len(exprs), chunk):
-        part = exprs[ci : ci + chunk]
-        p = d / f"{pid}_{ci // chunk:04d}.v"
+    # chunks of at most `chunk` cases and at most MAX_CASE_BYTES of literals (large literals cost coqc gigabytes)
+    bounds, start, size = [], 0, 0
+    for i, e in enumerate(exprs):
+        if i > start and (i - start >= chunk or size + len(e) > MAX_CASE_BYTES):
+            bounds.append((start, i))
+            start, size = i, 0
+        size += len(e)
+    if exprs:
+        bounds.append((start, len(exprs)))
+    for fi, (ci, cj) in enumerate(bounds):
+        part = exprs[ci:cj]
+        p = d / f"{pid}_{fi:04d}.v"
         with open(p, "w") as fh:
             fh.write("From SE Require Import Base.Num Base.Res.\n")
             for imp in imports:
